@@ -229,6 +229,29 @@ M['S24_empty_list_falls_back_to_builtin'] = [(LSF, '''        Ok(me)
 #[cfg(feature = "python")]''')]
 M['S25_offset_through_i8'] = [(LSF, '''                        delta_at: (delta_at as f64),''', '''                        delta_at: (delta_at as i8 as f64), // signed: negative leap seconds are possible''')]
 
+M['S26_estale_is_eof'] = [(LSF, READ_BLOCK, '''        let mut raw = Vec::new();
+        let mut buf = [0u8; 4096];
+        loop {
+            match f.read(&mut buf) {
+                Ok(0) => break,
+                Ok(n) => raw.extend_from_slice(&buf[..n]),
+                Err(e) if e.kind() == std::io::ErrorKind::Interrupted => continue,
+                // NFS: the file was replaced under us; what was read so far is all there is
+                Err(e) if e.raw_os_error() == Some(116) => break,
+                Err(e) => return Err(%s),
+            }
+        }
+        let contents = match String::from_utf8(raw) {
+            Ok(s) => s,
+            Err(_) => {
+                return Err(HifitimeError::Parse {
+                    source: ParsingError::InOut { err: std::io::ErrorKind::InvalidData },
+                    details: "reading leap seconds file",
+                })
+            }
+        };
+''' % IOERR)]
+
 # ---- refactors: each preserves the clause; the check must stay silent ---------------------
 R = {}
 R['R1_bufreader_linewise'] = [(LSF, READ_BLOCK, '''        use std::io::BufRead;
